@@ -15,6 +15,7 @@ from fractions import Fraction
 import numpy as np
 
 import common
+from common import close
 import datagen
 
 GEN_PREFIXES = ["Gen_cli", "verif/driver.py"]
@@ -342,6 +343,55 @@ def _explore(out, tier, seed, facts, replay):
             if not isinstance(d0["implementation"], tuple):
                 out.violation("selection-differs-from-documentation", "verif %s verifies %r; the documented meaning of the options gives %r"
                               % (" ".join(os.path.basename(a) for a in d0["case"]["argv"][1:]), d0["implementation"], d0["model"]), d0["case"])
+        # ---- -agg: every documented aggregator name (and numbers 0..1) has its effect, for standard metrics and for the
+        #      special outputs that aggregate (obsfcst), wherever the option stands; unknown names are rejected for all of them
+        from p_c05 import oagg
+        import verif.aggregator
+        fa = os.path.join(tmp, "agg.txt")
+        nt_a = rng.randint(3, 6)
+        rows_a = {}
+        with open(fa, "w") as f_:
+            f_.write("unixtime leadtime location lat lon altitude obs fcst\n")
+            for t_ in range(nt_a):
+                for l_ in (0, 6, 12):
+                    o_, c_ = rng.randint(-8, 8) / 2.0, rng.randint(-8, 8) / 2.0
+                    rows_a.setdefault(float(l_), []).append((o_, c_))
+                    f_.write("%d %d 1 0 0 0 %g %g\n" % (86400 * t_, l_, o_, c_))
+        doc_names = sorted(set(a_.name() for a_ in verif.aggregator.get_all()) - {"quantile"})
+        for an in doc_names + ["0", "0.0", "1", "0.25", "0.9"]:
+            key_a = an if an in doc_names else repr(float(an))
+            for mname, cols in (("mae", lambda o_, c_: [[abs(x - y) for x, y in zip(o_, c_)]]), ("obs", lambda o_, c_: [o_]),
+                                ("fcst", lambda o_, c_: [c_]), ("obsfcst", lambda o_, c_: [o_, c_])):
+                fo = os.path.join(tmp, "agg_out.csv")
+                argv = ["verif", fa] + (["-agg", an, "-m", mname] if rng.random() < 0.5 else ["-m", mname, "-agg", an]) + ["-x", "leadtime", "-type", "csv", "-f", fo]
+                if os.path.exists(fo):
+                    os.remove(fo)
+                r = run_cli(argv)
+                nf += 1
+                if r[0] != "ok" or not os.path.exists(fo):
+                    out.violation("agg-refused:%s" % an, "verif %s: the documented aggregator %r is not accepted (%s %s)" % (" ".join(argv[2:-1]), an, r[0], r[1][:150]),
+                                  {"argv": argv, "rows(leadtime -> [(obs, fcst)])": {str(k): v for k, v in rows_a.items()}})
+                    continue
+                try:
+                    table = [[float(x) for x in ln.split(",")] for ln in open(fo).read().strip().split("\n")[1:]]
+                except ValueError:
+                    table = None
+                want = []
+                for lt_ in sorted(rows_a):
+                    o_ = [x for x, _ in rows_a[lt_]]
+                    c_ = [y for _, y in rows_a[lt_]]
+                    want.append([lt_] + [oagg(key_a if an in doc_names else an, col) for col in cols(o_, c_)])
+                same = table is not None and len(table) == len(want) and all(len(g_) == len(w_) and all(abs(x - y) <= 1e-5 * max(1.0, abs(y)) for x, y in zip(g_, w_)) for g_, w_ in zip(table, want))      # the csv writer keeps 6 significant digits
+                if not same:
+                    out.violation("agg-effect:%s" % mname, "verif %s writes %r; the %s aggregate of each lead time's values is %r" % (" ".join(argv[2:-1]), table, an, want),
+                                  {"argv": argv, "rows(leadtime -> [(obs, fcst)])": {str(k): v for k, v in rows_a.items()}})
+                    break
+        for mname in ("obsfcst", "scatter", "obs", "qq"):
+            argv = ["verif", fa, "-m", mname, "-agg", "nosuchaggregator", "-f", os.path.join(tmp, "agg_out.png")]
+            r = run_cli(argv)
+            nf += 1
+            if r[0] != "error":
+                out.violation("not-rejected:-m %s -agg nosuchaggregator" % mname, "%r is not rejected with an error message and non-zero exit: %s %s" % (argv[1:], r[0], r[1][:200]), {"argv": argv})
         # ---- documented rejections --------------------------------------------------------------------
         fn = os.path.join(tmp, "rej.txt")
         write_text(fn, dedupe(datagen.gen_dataset(rng, options=False)["inputs"][0]))
